@@ -7,7 +7,7 @@ from collections import defaultdict
 import vf
 
 
-def record(ctx, fam, plan_lines, tag, archsets=("x86", "emu"), watchdog_ms=0, extra_flags=()):
+def record(ctx, fam, plan_lines, tag, archsets=("x86", "emu"), watchdog_ms=0, extra_flags=(), only=None):
     """Execute the plan on every architecture; returns merged list of event dicts (archs merged across binaries)."""
     plan = os.path.join(ctx.work, tag + ".plan")
     with open(plan, "w") as f:
@@ -17,7 +17,7 @@ def record(ctx, fam, plan_lines, tag, archsets=("x86", "emu"), watchdog_ms=0, ex
     for aset in archsets:
         exe = vf.build(fam, aset, extra_flags=extra_flags)
         out = os.path.join(ctx.work, "%s.%s.ndjson" % (tag, aset))
-        vf.run_plan(exe, plan, out, watchdog_ms)
+        vf.run_plan(exe, plan, out, watchdog_ms, only=only)
         with open(out) as f:
             for line in f:
                 e = json.loads(line)
